@@ -815,3 +815,33 @@ pub fn solve_milp(lp: &Lp, node_limit: usize) -> Result<(LpAnswer, MilpStats), O
         }
     }
 }
+
+/// The same model with every row and every continuous bound relaxed by eps*max(1,|value|);
+/// integrality is kept. Used to decide whether a disagreement is only a rounding artefact.
+pub fn relax(lp: &Lp, eps: &Q) -> Lp {
+    let mut out = lp.clone();
+    out.rows.clear();
+    for r in &lp.rows {
+        let slack = eps * qmax(&one(), &r.b.abs());
+        match r.rel {
+            Rel::Le => out.rows.push(LpRow { a: r.a.clone(), rel: Rel::Le, b: &r.b + &slack }),
+            Rel::Ge => out.rows.push(LpRow { a: r.a.clone(), rel: Rel::Ge, b: &r.b - &slack }),
+            Rel::Eq => {
+                out.rows.push(LpRow { a: r.a.clone(), rel: Rel::Le, b: &r.b + &slack });
+                out.rows.push(LpRow { a: r.a.clone(), rel: Rel::Ge, b: &r.b - &slack });
+            }
+        }
+    }
+    for v in out.vars.iter_mut() {
+        if v.int {
+            continue;
+        }
+        if let Some(lo) = &v.lo {
+            v.lo = Some(lo - eps * qmax(&one(), &lo.abs()));
+        }
+        if let Some(hi) = &v.hi {
+            v.hi = Some(hi + eps * qmax(&one(), &hi.abs()));
+        }
+    }
+    out
+}
